@@ -320,6 +320,102 @@ type httpCountHandler struct{ count func(int) }
 func (h *httpCountHandler) Echo(ctx context.Context, token int) (int, error) { h.count(token); return token, nil }
 func (h *httpCountHandler) Note(token int)                                    { h.count(token) }
 
+// outage (C05): the link drops, the server is unreachable for k redials, then comes back; one retry-tagged and one
+// untagged call are in flight at the fault, one of each is issued during the outage; optionally a second fault right
+// after the reconnect. With noReconnect the client must never dial again.
+func scenOutage(kind faultKind, k int, errorsOn bool, noReconnect bool, secondFault bool) *connRun {
+	minB := 15 * time.Millisecond
+	e := newConnEnv(connOpts{errors: errorsOn, noReconnect: noReconnect, backoffMin: minB, backoffMax: 60 * time.Millisecond})
+	params := map[string]interface{}{"fault": kind.String(), "failed_redials": k, "errors": errorsOn, "no_reconnect": noReconnect,
+		"second_fault": secondFault, "heals": !noReconnect, "backoff_min_ms": minB.Milliseconds()}
+	w := e.call("echo", context.Background())
+	e.waitEv(2*time.Second, func(ev tev) bool { return ev.Point == "call.return" && fmt.Sprint(ev.Args[0]) == fmt.Sprint(w) })
+	e.hold(2)
+	e.hold(3)
+	a := e.call("retry", context.Background())
+	b := e.call("echo", context.Background())
+	e.waitEv(2*time.Second, evIs("h.start", a))
+	e.waitEv(2*time.Second, evIs("h.start", b))
+	e.proxy.setRefuse(true)
+	base := e.proxy.acceptCount()
+	e.proxy.current().kill(kind)
+	e.releaseAllHolds()
+	if noReconnect {
+		time.Sleep(80 * time.Millisecond)
+		c := e.call("echo", context.Background())
+		e.waitEv(2*time.Second, func(ev tev) bool { return ev.Point == "call.return" && fmt.Sprint(ev.Args[0]) == fmt.Sprint(c) })
+		e.waitCalls(2 * time.Second)
+		r := e.finish("outage", params)
+		if r.Oracle == "" && r.Accepts != base {
+			r.Oracle = fmt.Sprintf("a no-reconnect client dialed %d more time(s)", r.Accepts-base)
+		}
+		return r
+	}
+	// during the outage
+	e.waitEv(2*time.Second, evIs("reconn.begin", nil))
+	c1 := e.call("retry", context.Background())
+	c2 := e.call("echo", context.Background())
+	deadline := time.Now().Add(5 * time.Second)
+	for e.proxy.acceptCount() < base+k && time.Now().Before(deadline) {
+		time.Sleep(time.Millisecond)
+	}
+	e.proxy.setRefuse(false)
+	e.waitEv(3*time.Second, evIs("redial.swap", nil))
+	if secondFault {
+		e.proxy.current().kill(kind)
+		dl := time.Now().Add(3 * time.Second)
+		for countPoint(e, "redial.swap") < 2 && time.Now().Before(dl) {
+			time.Sleep(time.Millisecond)
+		}
+	}
+	p := e.call("echo", context.Background())
+	e.waitEv(3*time.Second, func(ev tev) bool { return ev.Point == "call.return" && fmt.Sprint(ev.Args[0]) == fmt.Sprint(p) })
+	_, _ = c1, c2
+	e.waitCalls(4 * time.Second)
+	times := e.proxy.acceptTimes()
+	r := e.finish("outage", params)
+	params["probe"] = p
+	if r.Oracle == "" {
+		// redial attempts are spaced by the backoff, never a busy loop
+		for i := base + 1; i < len(times); i++ {
+			if gap := times[i].Sub(times[i-1]); gap < minB*8/10 {
+				r.Oracle = fmt.Sprintf("two consecutive dials only %v apart (configured minimum backoff %v): busy redial loop", gap, minB)
+			}
+		}
+		for _, c := range r.Calls {
+			if c.Token == p && c.Outcome != "ok" {
+				r.Oracle = fmt.Sprintf("after the link healed a new call still failed: %s", c.Outcome)
+			}
+			if c.Kind == "retry" && c.Outcome != "ok" {
+				r.Oracle = fmt.Sprintf("retry-tagged call %d did not ride out the outage: %s", c.Token, c.Outcome)
+			}
+			if c.Kind == "echo" && c.Outcome == "connerr" {
+				want := "*jsonrpc.JSONRPCError"
+				if errorsOn {
+					want = "*jsonrpc.RPCConnectionError"
+				}
+				if c.ErrType != want {
+					r.Oracle = fmt.Sprintf("untagged call %d surfaced the connection error as %s, expected %s (error mapping %v)", c.Token, c.ErrType, want, errorsOn)
+				}
+			}
+		}
+		// attempts count from 0 and increase by one per failed dial within one outage
+		want := 0
+		for _, ev := range r.Events {
+			if ev.Point == "reconn.begin" {
+				want = 0
+			}
+			if ev.Point == "redial.attempt" {
+				if fmt.Sprint(ev.Args[0]) != fmt.Sprint(want) {
+					r.Oracle = fmt.Sprintf("redial attempt numbered %v, expected %d", ev.Args[0], want)
+				}
+				want++
+			}
+		}
+	}
+	return r
+}
+
 func permutations(n int) [][]int {
 	if n == 0 {
 		return [][]int{{}}
@@ -382,6 +478,21 @@ func connFamily(seed uint64, tier string, args []string) {
 		}
 		for _, k := range []faultKind{faultFIN, faultRST} {
 			emit(scenFault(k, "idle", "echo", "echo", false, true))
+		}
+		for _, wk := range []string{"echo", "retry", "note"} {
+			emit(scenFault(faultCloseFrame, "idle", wk, "retry", true, true))
+		}
+	}
+	if which == "all" || which == "outage" {
+		for _, k := range []faultKind{faultFIN, faultRST, faultCloseFrame} {
+			for _, n := range []int{0, 1, 2, 5} {
+				if tier == "quick" && n == 5 && k == faultRST {
+					continue
+				}
+				emit(scenOutage(k, n, n%2 == 0, false, n == 1))
+			}
+			emit(scenOutage(k, 0, true, true, false))
+			emit(scenOutage(k, 0, false, true, false))
 		}
 	}
 	if which == "all" || which == "httpfault" {
